@@ -4,6 +4,7 @@ Rules compare shapes of code; several spellings of the same behaviour must there
     N1  a > b  ->  b < a ;  a >= b -> b <= a                      (single-operator comparisons)
     N2  if not C: A else: B  ->  if C: B else: A                  (whenever there is an else / elif part)
     N6  if C: ...return / raise  else: B  ->  if C: ...return / raise ; B   (an arm that always leaves is the `if` body, the other arm follows the if)
+    N7  X = E; <statement reading X once>  ->  <statement with E>       (X bound once and read once; adjacent statements; applied repeatedly)
     N3  X = E; return X  ->  return E                             (adjacent statements; X not captured by a nested function)
     N4  operands of + and * chains in a fixed order (constants last)   (only where no operand can be a string / list / tuple; never matrix products)
 The pass is idempotent.  `tools/metamorph.py` applies the inverse spellings to the whole repository and requires every check to stay silent.
@@ -63,17 +64,27 @@ class _Commute(ast.NodeTransformer):
     visit_BinOp = _visit_BinOp
 
 
+ENABLE_N7 = False   # inlining of single-use temporaries at AST level changes too much of what rules anchor on; the same spelling is looked through at the accessor level instead (wire.kw)
+
+
 class _Passthrough:
     """a _Stmts whose per-statement step is the identity (used to re-run the block-level rewrites on statements that are already canonical)"""
 
     def __init__(self, func):
         self.func = func
+        self._counts = None
 
     def stmt(self, st):
         return st
 
     def block_done(self, stmts):
         return _Stmts.block(self, stmts)
+
+    def _single_use(self, x):
+        return _Stmts._single_use(self, x)
+
+    def _use_site(self, st, x):
+        return _Stmts._use_site(st, x)
 
 
 def _terminates(body) -> bool:
@@ -103,6 +114,24 @@ class _Stmts:
         while i < len(body):
             st = body[i]
             st = self.stmt(st)
+            # N7: a temporary bound once, read once, in the very next statement, stands for its expression there (applied repeatedly, so chains of temporaries collapse)
+            while ENABLE_N7 and out and self.func is not None:
+                prev = out[-1]
+                if not (isinstance(prev, ast.Assign) and len(prev.targets) == 1 and isinstance(prev.targets[0], ast.Name)):
+                    break
+                x = prev.targets[0].id
+                if not self._single_use(x):
+                    break
+                spot = self._use_site(st, x)
+                if spot is None:
+                    break
+                parent, field, index = spot
+                if index is None:
+                    setattr(parent, field, prev.value)
+                else:
+                    getattr(parent, field)[index] = prev.value
+                out.pop()
+                self._counts = None
             nxt = body[i + 1] if i + 1 < len(body) else None
             if (isinstance(st, ast.Assign) and len(st.targets) == 1 and isinstance(st.targets[0], ast.Name) and isinstance(nxt, ast.Return)
                     and isinstance(nxt.value, ast.Name) and nxt.value.id == st.targets[0].id and self.func is not None):
@@ -139,12 +168,76 @@ class _Stmts:
         """statements that were already processed one by one: only the block-level rewrites (N3, N6 hoisting) remain to be applied"""
         return _Stmts.block(_Passthrough(self.func), stmts)
 
+    _counts = None
+
+    def _single_use(self, x: str) -> bool:
+        """x is bound exactly once and read exactly once in the current function, is not a parameter and is not touched by a nested function / lambda / comprehension"""
+        if self._counts is None:
+            loads, stores, banned = {}, {}, set()
+            f = self.func
+            for a in f.args.posonlyargs + f.args.args + f.args.kwonlyargs + ([f.args.vararg] if f.args.vararg else []) + ([f.args.kwarg] if f.args.kwarg else []):
+                banned.add(a.arg)
+
+            def walk(n, inner):
+                for ch in ast.iter_child_nodes(n):
+                    sub = inner or isinstance(ch, (ast.FunctionDef, ast.AsyncFunctionDef, ast.Lambda, ast.ClassDef, ast.ListComp, ast.SetComp, ast.DictComp, ast.GeneratorExp))
+                    if isinstance(ch, ast.Name):
+                        if sub:
+                            banned.add(ch.id)
+                        elif isinstance(ch.ctx, ast.Load):
+                            loads[ch.id] = loads.get(ch.id, 0) + 1
+                        else:
+                            stores[ch.id] = stores.get(ch.id, 0) + 1
+                    if isinstance(ch, (ast.Global, ast.Nonlocal)):
+                        banned.update(ch.names)
+                    walk(ch, sub)
+            walk(f, False)
+            self._counts = (loads, stores, banned)
+        loads, stores, banned = self._counts
+        return x not in banned and loads.get(x, 0) == 1 and stores.get(x, 0) == 1
+
+    @staticmethod
+    def _use_site(st: ast.stmt, x: str):
+        """(parent node, field, index) of the single Load of x in the part of `st` that is evaluated exactly once when st starts to execute; None if it is not there"""
+        if isinstance(st, (ast.Assign, ast.AugAssign, ast.AnnAssign, ast.Return, ast.Expr, ast.Raise, ast.Assert)):
+            roots = [st]
+        elif isinstance(st, (ast.If, ast.While)):
+            roots = [] if isinstance(st, ast.While) else [st.test]
+            holder = st
+        elif isinstance(st, ast.For):
+            roots = [st.iter]
+        else:
+            return None
+        if isinstance(st, ast.If):
+            if isinstance(st.test, ast.Name) and st.test.id == x:
+                return (st, "test", None)
+        if isinstance(st, ast.For):
+            if isinstance(st.iter, ast.Name) and st.iter.id == x:
+                return (st, "iter", None)
+        for root in roots:
+            for parent in ast.walk(root):
+                if isinstance(parent, (ast.Lambda, ast.ListComp, ast.SetComp, ast.DictComp, ast.GeneratorExp, ast.BoolOp, ast.IfExp)):
+                    # evaluated zero or many times: leave alone (ast.walk still descends; such uses are banned by _single_use for comprehensions, and BoolOp / IfExp operands are conditional)
+                    if any(isinstance(n, ast.Name) and n.id == x for n in ast.walk(parent)):
+                        return None
+                for field, value in ast.iter_fields(parent):
+                    if isinstance(value, ast.Name) and value.id == x and isinstance(value.ctx, ast.Load):
+                        return (parent, field, None)
+                    if isinstance(value, list):
+                        for k, v in enumerate(value):
+                            if isinstance(v, ast.Name) and v.id == x and isinstance(v.ctx, ast.Load):
+                                return (parent, field, k)
+        return None
+
     def stmt(self, st: ast.stmt) -> ast.stmt:
         if isinstance(st, (ast.FunctionDef, ast.AsyncFunctionDef)):
             saved = self.func
+            saved_counts = self._counts
+            self._counts = None
             self.func = st
             st.body = self.block(st.body)
             self.func = saved
+            self._counts = saved_counts
             return st
         if isinstance(st, ast.ClassDef):
             saved = self.func
@@ -305,8 +398,11 @@ def restore_local_names(tree: ast.Module, relpath: str) -> int:
         r = ref.get(q)
         if not r:
             continue
+        order, _ = _own_locals(f)
+        if order == r["locals"] or len(order) != len(r["locals"]):
+            continue   # same names (the usual case: no digest needed) or a different set of locals
         digest, order, nodes = alpha_form(f)
-        if digest != r["digest"] or order == r["locals"] or len(order) != len(r["locals"]):
+        if digest != r["digest"]:
             continue
         ren = dict(zip(order, r["locals"]))
         if len(set(ren.values())) != len(ren):
